@@ -4,7 +4,7 @@
 set -e
 U=$1; F=$2; PAT=$3; REP=$4
 rm -rf /scratch/mut/repo; mkdir -p /scratch/mut/repo
-cp -r /repo/tarpc /scratch/mut/repo/tarpc 2>/dev/null; rm -rf /scratch/mut/repo/tarpc/target
+cp -r ${MUT_SRC:-/repo}/tarpc /scratch/mut/repo/tarpc 2>/dev/null; rm -rf /scratch/mut/repo/tarpc/target
 python3 - "$F" "$PAT" "$REP" <<'PY'
 import re,sys
 f,pat,rep=sys.argv[1:4]
